@@ -114,6 +114,15 @@ def make_inputs(rng, kind, force=None):
             bad = f.read()
         prog = pngen.generate(rng, n_funcs=2, with_main=False, prefix="q")
         return {"main.pn": bad, "helper.pn": prog.single_file().encode()}, rng.choice([["main.pn", "helper.pn"], ["helper.pn", "main.pn"]]), False, True, ["main.pn", "helper.pn"]
+    if kind == "many_errors":
+        # a failing compilation with a chosen number of diagnostics (one undefined name per
+        # function): whatever their number, the exit status is not 0
+        n = (force or {}).get("n_errors", 256)
+        bad = "".join("fn zz_f%d() -> i32\n{\n\treturn: zz_nope%d\n}\n\n" % (i, i) for i in range(n))
+        if (force or {}).get("two_modules"):
+            prog = pngen.generate(rng, n_funcs=2)
+            return {"main.pn": prog.single_file().encode(), "bad.pn": bad.encode()}, ["main.pn", "bad.pn"], False, True, ["main.pn", "bad.pn"]
+        return {"main.pn": ("fn main() -> i32\n{\n\treturn: 0\n}\n\n" + bad).encode()}, ["main.pn"], False, True, ["main.pn"]
     if kind == "package_only":
         pkg = rng.choice(["core:text", "core:text/char.pn", "vendor:libc"])
         return {}, [pkg], True, True, []
@@ -1154,6 +1163,28 @@ def _verbose_large_job(args):
     return {"violations": [{"class": c, "detail": d, "scenario": sc_json(sc), "plan": [], "fault": "none"} for c, d in v]}
 
 
+ERROR_COUNTS = [1, 2, 255, 256, 257, 511, 512, 768]
+
+
+def _error_count_job(args):
+    """A failing compilation with N diagnostics, N around the multiples of 256
+    (an exit status is one byte): non-zero exit, no backend, for every
+    subcommand, with and without --silent, in the only module or in the second."""
+    seed, idx = args
+    rng = rng_for(seed, "C18/error_count", idx)
+    sub = ["emit", "run", "build"][idx % 3]
+    n = ERROR_COUNTS[(idx // 3) % len(ERROR_COUNTS)]
+    variant = idx // (3 * len(ERROR_COUNTS))
+    sc = make_scenario(rng, sub, "many_errors", {"n_errors": n, "two_modules": variant % 2 == 1, "silent": variant // 2 % 2 == 1, "verbose": False,
+                                                 "color": "never", "arrows": "ascii", "cell": (0, 0, 0), "config": "none",
+                                                 "out_dir": "absent" if sub != "emit" else "fresh", "script": {"read": "all", "exit": 0}, "order": "parent_first"})
+    sc["name"] = "error_count:%s:%d:%d" % (sub, n, variant)
+    wd = os.path.join(work_root(), "C18", "ec%d" % idx)
+    obs = run_census(sc, wd)
+    v, calls, _ = judge(sc, obs, obs, "error_count", None)
+    return {"violations": [{"class": c, "detail": d, "scenario": sc_json(sc), "plan": [], "fault": "none"} for c, d in v]}
+
+
 def _script_grid_job(args):
     """Every backend behaviour x --silent x subcommand x forced order."""
     seed, idx = args
@@ -1535,6 +1566,11 @@ def run(tier, seed):
         runs += 1
         render_cells += 1
         raw.extend(res["violations"])
+    error_count_cells = 0
+    for res in parallel_map(_error_count_job, [(seed, i) for i in range(cfg.get("error_count", 3 * len(ERROR_COUNTS) * 4))]):
+        runs += 1
+        error_count_cells += 1
+        raw.extend(res["violations"])
     verbose_large = 0
     for res in parallel_map(_verbose_large_job, [(seed, i) for i in range(cfg.get("verbose_large", 36))]):
         runs += 2
@@ -1614,6 +1650,7 @@ def run(tier, seed):
         "real_filesystem_variants": fs_cells,
         "failing_compilations_rendered_colourless_ascii": render_cells,
         "verbose_runs_of_large_programs": verbose_large,
+        "failing_compilations_by_number_of_diagnostics": {"cells": error_count_cells, "counts": ERROR_COUNTS},
         "swarm_runs": swarm_done,
         "crash_restart_runs": crash_done,
         "real_lli_cross_checks": lli_runs,
